@@ -300,6 +300,8 @@ _add("C19", "Session 5 (dates): the tool's ISO date conversion is modelled (Mode
             "iso_next_day_usec (+86 400 000 000 us); tie: random civil dates 1583..2400 with fractions of a second through `moc from timestamp --time-type isorfc|isosimple` = the model (cli_from_iso).")
 _add("C17", "Session 5: hole filling is modelled (Model/FillHoles.lean: components of the complement over the edge-or-vertex adjacency, stably sorted by decreasing size, all but the 1 + n largest added) with fill_holes_spec, fill_holes_largest_kept, fill_holes_superset, and tied exactly to the real fill_holes(None | Some(1)) (op sp_fill; equal-size components across the cut skipped); "
             "the space operations are also driven on u32 and u16 MOCs (seed C17e).")
+_add("C09", "Session 5: `FixedDepthSTMocBuilder::buff_to_moc` is transliterated (Model/STBuilder.lean: one group of sorted space cells per time cell, consecutive time cells with the same coverage grouped) and proved: buffer_elements_exact (the elements cover a pair iff it was pushed, for every order / duplication / size), buffer_elements_canonical, buffer_elements_order_independent; "
+            "tie: the ELEMENTS the real builder returns for one buffer = the model's (op st_buff). The merge of successive buffers still goes through the streaming union (specification level).")
 _add("C20", "After the bug hunt the four descent theorems carry the STRICT inequality of the property (a threshold exactly on a sub-cell boundary cuts nothing and is met exactly; the code was off by a whole piece, repaired b3d1506; the model has the guards "
             "of the repaired code and the reverse lower descent recurses into itself, d3d6aa3), the harness judges the implementation with the exact sum of the pieces really cut, thresholds on every quarter / finest-piece boundary in both density orders are generated, "
             "and the sky-map reader is driven with skipped, UNSEEN and NaN pixels against the model (repaired 655082e). The whole-selection theorem selection_mass_bracket carries the strict inequality too (third conjunct; equality when no boundary cell is descended into).")
